@@ -83,6 +83,9 @@ type Spec struct {
 	// journal that carries another attempt's id (what a job of a superseded attempt, still
 	// alive somewhere, writes)
 	StaleEntries []string `json:"stale_entries"`
+	// RemoveOwnTmp: these jobs remove their own temporary directory before they end (a tidy
+	// stage, a `trap 'rm -rf "$TMPDIR"' EXIT`)
+	RemoveOwnTmp []string `json:"remove_own_tmp"`
 	// Bare: stage code writes the files its outputs name and nothing else (no unreferenced
 	// files, nothing in the temporary directory): a fork may then have nothing to reclaim
 	Bare bool `json:"bare"`
@@ -938,6 +941,14 @@ func (d *Driver) end(j *job) {
 		writeFile(path.Join(j.vj.MetadataPath, "_stage_defs"), b)
 		d.journal(j, "stage_defs")
 		return // the job lives on: its end is another step of the schedule
+	}
+	for _, k := range d.spec.RemoveOwnTmp {
+		if k == j.key {
+			os.RemoveAll(path.Join(j.vj.MetadataPath, "tmp"))
+			d.fmu.Lock()
+			delete(d.tmps, j.key)
+			d.fmu.Unlock()
+		}
 	}
 	j.ended = true
 	if d.spec.MaxJobs > 0 {
